@@ -729,6 +729,11 @@ class SingleListGrader(ItemGrader):
         # Split the student response
         student_list = student_input.split(self.config['delimiter'])
 
+        # Pass our debuglog to the subgrader (as ListGrader does), so that a subgrader with
+        # debug=True has a log to write to whether or not it was ever called on its own
+        if hasattr(self, 'debuglog'):
+            self.config['subgrader'].debuglog = self.debuglog
+
         # Check for the wrong number of entries
         # This is done before empty entries, as this is the preferred error message
         # if both apply.
